@@ -170,6 +170,7 @@ def run(tier, seed):
     locale_synth.ensure()
     bdir = build.build("asan")
     chk = core.Check(PID, tier, seed)
+    os.environ["VF_RECORD_SKIP"] = r"LPBIG"   # (not in the memcheck sample: 2 GiB of text under valgrind)
     rd = core.record_dir(PID) if tier == "thorough" else None
     sh = core.parallel(shard_fn, seed=seed, tier=tier, exe=bdir + "/jcdrv", ntexts=64000 if tier == "quick" else 800000, ntrees=32000 if tier == "quick" else 600000)
     chk.absorb(sh)
